@@ -12,7 +12,7 @@ LANGS = [None, 'en', 'de', 'ru', 'en-GB', 'de-DE', 'xx']
 PACKS = [None, '', '*', '*', '*,cleveref', 'babel', 'amsmath,amsthm', 'glossaries', 'biblatex,xspace',
          'xcolor,hyperref,graphicx', 'tikz,listings,circuitikz', 'cleveref']
 DCLS = [None, '', 'article', 'book', 'report', 'scrartcl', 'scrbook', 'scrreprt']
-DEFS = [None, None, '\\newcommand{\\zz}[1]{(#1)}',
+DEFS = [None, None, '\\newcommand{\\zz}[1]{(#1)}', '\\newcommand{\\zzv}{\\verb|abcdefgh|}\\newcommand{\\zzw}{\\begin{verbatim}abc def\\end{verbatim}}',
         '\\usepackage[german]{babel}\n',
         '\\newcommand{\\zzo}[2][d]{#1:#2}\n\\def\\zzd#1{<#1>}\n',
         '\\newtheorem{zzthm}{Zzthm}\n\\newcommand{\\zz}{ZZ\\zzo{a}}\n\\newcommand{\\zzo}[1]{[#1]}']
@@ -24,6 +24,8 @@ DEF_FRAGMENTS = [
     '\\newcommand{\\zzd}{\\zza{q}}', '\\newcommand{\\zze}[2]{#2#1}', '\\newtheorem{zzthm}{Zzthm}',
     '\\newcommand*{\\zzf}[3][]{#3#1}', '\\def\\zzg{G}', '\\renewcommand{\\textbf}[1]{#1}',
     '\\newcommand{\\zzh}[1]{\\footnote{#1}}', '\\def\\zzi[#1]{#1}',
+    '\\newcommand{\\zzv}{\\verb|abcdefgh|}', '\\newcommand{\\zzw}{\\begin{verbatim}abc def\\end{verbatim}}',
+    '\\newacronym{a}{b}{\u00df}', '\\newglossaryentry{g}{name=n,description={\ufb01x}}', '\\newacronym{a}{b}{\u0390}', '\\newglossaryentry{g}{description={\ufb03}}', '\\newacronym{a}{b}{\u0390 x}',
 ]
 DEFINERS = ('\\newcommand', '\\renewcommand', '\\def')
 
@@ -68,7 +70,7 @@ def vocabulary():
         _voc = (names + ['\\begin{%s}' % e for e in envs] + ['\\end{%s}' % e for e in envs]
                 + DEF_FRAGMENTS
                 + ['\\begin', '\\end', '\\item', '\\item[', '\\verb', '\\verb|', '\\zz', '\\zza', '\\zzb', '\\zzc',
-                   '\\zzd', '\\zze', '\\zzf', '\\zzh', '\\zzi', '\\begin{zzthm}', '\\end{zzthm}', '\\begin{zzenv}', '\\end{zzenv}',
+                   '\\zzd', '\\zze', '\\zzf', '\\zzh', '\\zzi', '\\zzv', '\\zzw', '\u00df', '\ufb01', '\u0390', '\\begin{zzthm}', '\\end{zzthm}', '\\begin{zzenv}', '\\end{zzenv}',
                    '{', '}', '[', ']', '$', '$$', '\\(', '\\)', '\\[', '\\]', '{', '}', '{', '}', '[', ']',
                    '#', '#1', '#2', '#9', '&', '\\\\', '%', '%x\n', '%%% LT-SKIP-BEGIN\n', '%%% LT-SKIP-END\n',
                    '~', '_', '^', '*', ' ', ' ', '\n', '\n\n', 'a', 'b', 'Word', '.', ',', '1', '"', '"a', '"`', "\\'",
